@@ -320,6 +320,9 @@ def run_dht(scenario, run, monitor=False, corrupt_factory=None, max_steps=12_000
     fam = scenario.get('family', 'hit')
     started = set()
     announces = {}      # blob int -> list of dict(node, start, end, stored_to)
+    # 28..40 nodes joining at once over links of up to a second one way: see known finding C12-young-network (the
+    # same five-minute verification delay keeps such a network sparse well past ten minutes)
+    big_slow = n >= 28 and float((scenario.get('net') or {}).get('latency', [0, 0])[1]) >= 1.0
     thin = {}           # blob int -> list of ThinAnnouncer
     background = []     # harness tasks that keep announcing while lookups run
     judged = [0]
@@ -483,7 +486,7 @@ def run_dht(scenario, run, monitor=False, corrupt_factory=None, max_steps=12_000
                 announces.setdefault(op['blob'], []).append(rec)
                 if not stored_to and len(started) > 1 and fam != 'heal':
                     run.violation('C12.announce_stored_nowhere', f'announce_blob by node {i} stored on no node '
-                                  f'in a loss-free honest network of {len(started)}', young=bool(scenario.get('young')))
+                                  f'in a loss-free honest network of {len(started)}', young=bool(scenario.get('young')), big_slow=big_slow)
                     return
                 my = (world.addr_of[i][0], node.protocol.peer_port)
                 for nid in stored_to:
@@ -510,7 +513,7 @@ def run_dht(scenario, run, monitor=False, corrupt_factory=None, max_steps=12_000
                 if fam == 'hit' and len(stored_idx & set(closest)) * 2 < min(len(stored_idx), len(closest)):
                     run.violation('C12.stored_far_from_hash', f'announce_blob by node {i} stored on nodes '
                                   f'{sorted(x for x in stored_idx if x is not None)} but the {len(closest)} nodes closest to '
-                                  f'the hash are {closest}', young=bool(scenario.get('young')))
+                                  f'the hash are {closest}', young=bool(scenario.get('young')), big_slow=big_slow)
                     return
             elif kind == 'await_joined':
                 for _ in range(600):
@@ -669,7 +672,7 @@ def run_dht(scenario, run, monitor=False, corrupt_factory=None, max_steps=12_000
                             run.violation('C12.miss_before_expiry', f'value lookup by node {i} at age '
                                           f'{t0 - latest["end"]:.0f}s (of the latest of {len(recs)} announcements) did not '
                                           f'return announcer node {a} (network of {len(started)}, found {len(got)})',
-                                          n=len(started), reannounced=len(recs) > 1, young=bool(scenario.get('young')))
+                                          n=len(started), reannounced=len(recs) > 1, young=bool(scenario.get('young')), big_slow=big_slow)
                             return
                     elif all(t0 > rec['end'] + EXPIRY for rec in recs):
                         run.probes['lookup_must_miss'] += 1
